@@ -1,6 +1,6 @@
 \* generation (quick): every transition; period 2 (offsets boundary / boundary+1), heights 0..9 (gc from 4P on), BPCOUNT 2 or 3 under the code's
 \* GLOBALCOUNT rule (the model predicts what the code does; the harness' oracle decides whether that is a function of the chain),
-\* at most 1 content change per chain, no LIB (it only removes behaviours)
+\* two block contents (genesis content; ranking 2 with BPCOUNT 2), at most 1 content change per chain, no LIB (it only removes behaviours)
 SPECIFICATION Spec
 CONSTANTS
   P = 2
@@ -8,6 +8,7 @@ CONSTANTS
   Genesis <- Gen3
   Rankings <- Rank2
   Counts <- C23
+  ContentSet <- TwoContents
   DefaultCount = 3
   MaxChanges = 1
   MaxLibLag = 0
